@@ -3,8 +3,11 @@ package main
 import (
 	"encoding/json"
 	"fmt"
+	"context"
 	"os"
+	"os/exec"
 	"strings"
+	"time"
 
 	lua "github.com/yuin/gopher-lua"
 	"verifh/lib"
@@ -158,15 +161,28 @@ func runCase(w *lib.Writer, c in) {
 	} else {
 		args = append(args, c.vals()...)
 	}
+	if c.Fn == "rep" && len(c.Args) == 1 && c.Args[0] > 0 && float64(len(s))*float64(c.Args[0]) > 1<<26 {
+		runHugeRep(w, c, s)
+		return
+	}
 	res, errs := call(c.Fn, args...)
 	id := w.NextID()
 	kc := lib.Case{Input: c, Class: c.Fn, Nontrivial: nontrivial(s, c.Args)}
 	if errs != "" {
-		// none of these functions may fail on string/integer arguments
 		kc.Observed = map[string]any{"error": errs}
-		kc.Coq = errCase(c, s, p)
-		w.Add(kc)
-		w.GoFail(id, "string."+c.Fn+" raised: "+errs)
+		switch c.Fn {
+		case "rep": // legitimate only for a result that cannot reasonably be built: the model decides
+			kc.Coq = fmt.Sprintf("CRepErr %s %s", lib.CoqBytes(s), lib.CoqZ(c.Args[0]))
+			w.Add(kc)
+		case "char": // legitimate only for a code outside 0..255: the model decides
+			kc.Coq = fmt.Sprintf("CCharErr %s", lib.CoqZList(c.Args))
+			w.Add(kc)
+		default:
+			// none of the other functions may fail on string/integer arguments
+			kc.Coq = errCase(c, s, p)
+			w.Add(kc)
+			w.GoFail(id, "string."+c.Fn+" raised: "+errs)
+		}
 		return
 	}
 	str := func() []byte {
@@ -240,6 +256,56 @@ func runCase(w *lib.Writer, c in) {
 	w.Add(kc)
 }
 
+// runHugeRep runs string.rep with a result of more than 64 MB in a child process: an allocation
+// failure aborts a Go process and cannot be caught.
+func runHugeRep(w *lib.Writer, c in, s []byte) {
+	id := w.NextID()
+	kc := lib.Case{Input: c, Class: "rep:huge", Nontrivial: true}
+	ctx, cancel := context.WithTimeout(context.Background(), 60*time.Second)
+	defer cancel()
+	out, err := exec.CommandContext(ctx, os.Args[0], "child-rep", c.S, fmt.Sprint(c.Args[0])).CombinedOutput()
+	o := string(out)
+	switch {
+	case err == nil && strings.HasPrefix(o, "ERR"):
+		kc.Observed = map[string]any{"error": strings.TrimSpace(o)}
+		kc.Coq = fmt.Sprintf("CRepErr %s %s", lib.CoqBytes(s), lib.CoqZ(c.Args[0]))
+		w.Add(kc)
+	case err == nil && strings.HasPrefix(o, "OK"):
+		kc.Observed = strings.TrimSpace(o)
+		kc.Coq = fmt.Sprintf("CRep %s %s []", lib.CoqBytes(s), lib.CoqZ(c.Args[0])) // a result of that size is not carried over
+		w.Add(kc)
+	default:
+		if len(o) > 200 {
+			o = o[:200]
+		}
+		kc.Observed = map[string]any{"crash": o}
+		kc.Coq = fmt.Sprintf("CRep %s %s [-7]", lib.CoqBytes(s), lib.CoqZ(c.Args[0]))
+		w.Add(kc)
+		w.GoFail(id, "string.rep: the process died or hung instead of returning or raising: "+o)
+	}
+}
+
+// childRep is the body of the child process of runHugeRep.
+func childRep(shex, n string) {
+	var cnt int64
+	fmt.Sscan(n, &cnt)
+	res, errs := call("rep", lua.LString(string(unhex(shex))), lua.LNumber(cnt))
+	if errs != "" {
+		if len(errs) > 80 {
+			errs = errs[:80]
+		}
+		fmt.Println("ERR", errs)
+		return
+	}
+	if len(res) == 1 {
+		if v, ok := res[0].(lua.LString); ok {
+			fmt.Println("OK", len(v))
+			return
+		}
+	}
+	fmt.Println("BAD result shape")
+}
+
 // errCase encodes a raised error as an observation no model output equals.
 func errCase(c in, s, p []byte) string {
 	sb := lib.CoqBytes(s)
@@ -296,6 +362,18 @@ func corpus(w *lib.Writer) {
 		{Fn: "byte", S: h("abc"), Args: []int64{-10}},
 		{Fn: "sub", S: h("hello"), Args: []int64{-3}},
 		{Fn: "sub", S: h("hello"), Args: []int64{0, -100}},
+		// string.rep beyond any buildable size must raise, not kill the process (fixed)
+		{Fn: "rep", S: lib.Hex(make([]byte, 1024)), Args: []int64{1<<31 - 1}},
+		{Fn: "rep", S: h("x"), Args: []int64{1 << 40}}, {Fn: "rep", S: h("ab"), Args: []int64{1 << 62}},
+		{Fn: "rep", S: h("x"), Args: []int64{1 << 31}}, {Fn: "rep", S: h(""), Args: []int64{1 << 40}},
+		{Fn: "rep", S: h("abc"), Args: []int64{1000}},
+		// string.char outside 0..255 raises (fixed)
+		{Fn: "char", Args: []int64{256}}, {Fn: "char", Args: []int64{-1}}, {Fn: "char", Args: []int64{65, 300, 66}},
+		{Fn: "char", Args: []int64{0, 255}}, {Fn: "char", Args: []int64{}},
+		// positions at the ends of the integer range (fixed: -2^63 overflowed)
+		{Fn: "sub", S: h("hello"), Args: []int64{-1 << 63}}, {Fn: "sub", S: h("hello"), Args: []int64{-1 << 63, 1 << 62}},
+		{Fn: "sub", S: h("hello"), Args: []int64{2, -1 << 63}}, {Fn: "byte", S: h("abc"), Args: []int64{-1 << 63, 1 << 62}},
+		{Fn: "find", S: h("abc"), P: h("b"), Args: []int64{-1 << 63}}, {Fn: "find", S: h("abc"), P: h("b"), Args: []int64{1 << 62}},
 		// integer arguments given as numeric strings / non-integral numbers (luaL_checkint converts; fixed)
 		{Fn: "rep", S: h("x"), Args: []int64{3}, Sp: []int{1}},
 		{Fn: "sub", S: h("hello"), Args: []int64{2, 3}, Sp: []int{1, 1}},
@@ -380,6 +458,14 @@ func genStrings(w *lib.Writer, r *lib.Rand, tier string) {
 		for q := 0; q < per; q++ {
 			i := int64(r.Range(-l-2, l+2))
 			j := int64(r.Range(-l-2, l+2))
+			if r.Chance(6) { // the ends of the integer range
+				ext := []int64{-1 << 63, -1 << 62, 1 << 62, -1<<31 - 1, 1 << 31, 1 << 53}
+				if r.Bool() {
+					i = ext[r.Intn(len(ext))]
+				} else {
+					j = ext[r.Intn(len(ext))]
+				}
+			}
 			switch r.Intn(8) {
 			case 0:
 				runCase(w, in{Fn: "sub", S: hs, Args: []int64{i, j}})
@@ -407,6 +493,9 @@ func genStrings(w *lib.Writer, r *lib.Rand, tier string) {
 				cs := make([]int64, r.Range(0, 6))
 				for x := range cs {
 					cs[x] = int64(r.Intn(256))
+					if r.Chance(5) { // outside 0..255: must raise
+						cs[x] = []int64{-1, 256, 257, 300, 1 << 31, -256, 1000}[r.Intn(7)]
+					}
 				}
 				runCase(w, in{Fn: "char", Args: cs})
 			}
